@@ -3,6 +3,10 @@
 package registry
 
 import (
+	"sync"
+
+	"ergo.services/ergo/lib"
+
 	"bufio"
 	"encoding/json"
 	"errors"
@@ -47,6 +51,7 @@ type HLine struct {
 	Rival   []string `json:"rival"`   // results of a rival's attempts to register what the process holds
 	Name    string   `json:"name"`    // send to the name after the termination ("" = never registered)
 	Events  []string `json:"events"`  // per event ever registered: result of registering it again from another process afterwards
+	Notice  []string `json:"notice"`  // claims made at the moment the termination has been announced (the terminating goroutine is parked right after the exit / down signals went out): name first, then every event held
 	Rels    int      `json:"rels"`    // relations in the target manager that still mention the terminated process as requester
 	RelsT   int      `json:"relst"`   // ... or as target
 }
@@ -69,7 +74,43 @@ func hres(err error) string {
 	return "err:" + err.Error()
 }
 
+// noticeGate parks the goroutine that terminates the watched process right after its exit / down signals have gone out
+// (yield point unreg.name), so that claims can be made at exactly the moment an observer learns of the termination.
+type noticeGate struct {
+	mu      sync.Mutex
+	pid     gen.PID
+	parked  chan struct{}
+	release chan struct{}
+}
+
+var ngate noticeGate
+
+func noticeHook(point string, subject any) {
+	if point != "unreg.name" {
+		return
+	}
+	p, ok := subject.(interface{ PID() gen.PID })
+	if !ok {
+		return
+	}
+	ngate.mu.Lock()
+	if ngate.parked == nil || p.PID() != ngate.pid {
+		ngate.mu.Unlock()
+		return
+	}
+	pk, rl := ngate.parked, ngate.release
+	ngate.parked = nil
+	ngate.mu.Unlock()
+	close(pk)
+	select {
+	case <-rl:
+	case <-time.After(2 * time.Second):
+	}
+}
+
 func RunHistories(nodeName string, f *HFile, out *bufio.Writer) error {
+	lib.SetVerifHook(noticeHook)
+	defer lib.SetVerifHook(nil)
 	var opt gen.NodeOptions
 	opt.Log.DefaultLogger.Disable = true
 	opt.Log.Level = gen.LogLevelDisabled
@@ -216,6 +257,10 @@ func RunHistories(nodeName string, f *HFile, out *bufio.Writer) error {
 				}
 			}
 		}
+		parkedCh, releaseCh := make(chan struct{}), make(chan struct{})
+		ngate.mu.Lock()
+		ngate.pid, ngate.parked, ngate.release = pid, parkedCh, releaseCh
+		ngate.mu.Unlock()
 		switch h.Exit {
 		case "kill":
 			n.Kill(pid)
@@ -224,6 +269,31 @@ func RunHistories(nodeName string, f *HFile, out *bufio.Writer) error {
 		default:
 			n.Send(pid, gated.Cmd{Fn: func(*gated.Scripted) error { return errors.New("R:abn") }})
 		}
+		// the termination has just been announced to links and monitors: what the process owned can be claimed by whoever reacts
+		select {
+		case <-parkedCh:
+			if name != "" {
+				e := n.RegisterName(name, peers[0])
+				line.Notice = append(line.Notice, hres(e))
+				if e == nil {
+					n.UnregisterName(name)
+				}
+			}
+			for _, k := range evOrder {
+				if held[k] {
+					ev := events[k]
+					var e error
+					gated.Do(n, peers[0], func(s *gated.Scripted) error { _, e = s.RegisterEvent(ev, gen.EventOptions{}); return nil })
+					line.Notice = append(line.Notice, hres(e))
+					if e == nil {
+						gated.Do(n, peers[0], func(s *gated.Scripted) error { s.UnregisterEvent(ev); return nil })
+					}
+				}
+			}
+		case <-time.After(time.Second):
+			line.Notice = append(line.Notice, "nopark")
+		}
+		close(releaseCh)
 		deadline := time.Now().Add(2 * time.Second)
 		for time.Now().Before(deadline) {
 			if _, err := n.ProcessInfo(pid); err != nil {
@@ -270,6 +340,9 @@ func RunHistories(nodeName string, f *HFile, out *bufio.Writer) error {
 		}
 		if line.Rival == nil {
 			line.Rival = []string{}
+		}
+		if line.Notice == nil {
+			line.Notice = []string{}
 		}
 		b, _ := json.Marshal(&line)
 		out.Write(b)
